@@ -198,6 +198,12 @@ class FStr:
         return "f" + repr("".join(p if isinstance(p, str) else repr(p) for p in self.parts))
 
 
+class NDIndex:
+    """an integer index array of two or more dimensions, as a subscript"""
+    def __init__(self, shape, flat):
+        self.shape, self.flat = tuple(shape), list(flat)
+
+
 class NeedChoice(Exception):
     """a test that depends on symbolic values was met and no answer is scheduled for it (run_paths re-runs with both answers)"""
 
@@ -454,6 +460,21 @@ class TenSym(PySym):
         return pos, L.pop()
 
     def getitem(self, t, key):
+        ks_ = key if isinstance(key, tuple) else (key,)
+        nd = [k for k in ks_ if isinstance(k, NDIndex)]
+        if nd:
+            # an index array of several dimensions: index with its elements, then give the new axis the shape of the index array
+            if len(nd) > 1 or any(isinstance(k, (list, tuple)) for k in ks_):
+                raise Unsupported("several index arrays, one of them multi-dimensional")
+            pos = 0
+            for k in ks_:
+                if k is nd[0]:
+                    break
+                if k is Ellipsis:
+                    raise Unsupported("ellipsis before a multi-dimensional index array")
+                pos += 1 if (isinstance(k, slice) or k is None) else 0
+            r = self.getitem(t, tuple(list(k.flat) if k is nd[0] else k for k in ks_))
+            return Ten(r.shape[:pos] + tuple(nd[0].shape) + r.shape[pos + 1:], list(r.data))
         pr = self._paired(t, key)
         if pr is not None:
             pos, L = pr
@@ -550,7 +571,9 @@ class TenSym(PySym):
                 if v.ndim != 1:
                     self._unsup("mask of %d dimensions as an index" % v.ndim)
                 return [k for k, x in enumerate(v.data) if self.concrete(x) != 0]
-            return [self.concrete(x) for x in v.data] if v.ndim == 1 else self._unsup("index array of %d dimensions" % v.ndim)
+            if v.ndim == 1:
+                return [self.concrete(x) for x in v.data]
+            return NDIndex(v.shape, [self.concrete(x) for x in v.data])
         return self.concrete(v)
 
     def _unsup(self, what):
@@ -827,7 +850,27 @@ class TenSym(PySym):
 
     def extreme(self, name, values):
         """smallest ('min') / largest ('max') of symbolic values: an opaque function of the *set* of the values"""
-        items = sorted({repr(self.reduce(x)): x for x in values}.items())
+        # min / max are associative: an element that is itself the min / max of an earlier set stands for that set
+        flat = []
+        for x in values:
+            hit = None
+            if isinstance(x, Rat):
+                for (f_, a_, r_) in self.calls:
+                    if f_ == name and isinstance(r_, Rat) and r_ is x or (f_ == name and isinstance(r_, Rat) and isinstance(x, Rat) and len(x.vars()) == 1 and r_ == x):
+                        hit = a_[0]
+                        break
+            flat.extend(hit.data if hit is not None else [x])
+        cache = self.__dict__.setdefault("_repr_cache", {})
+
+        def key(x):
+            k = cache.get(id(x))
+            if k is None or k[0] is not x:
+                k = (x, repr(self.reduce(x)))
+                cache[id(x)] = k
+            return k[1]
+        items = sorted({key(x): x for x in flat}.items())
+        if len(items) == 1:
+            return items[0][1]
         return self.opaque_tensor(name, [Ten((len(items),), [x for _, x in items]), None], ())
 
     def opaque_tensor(self, name, args, shape):
@@ -1281,7 +1324,9 @@ class TenSym(PySym):
             v_ = self.lift(A(0))
             c_ = v_.const_value() if isinstance(v_, Rat) else None
             if c_ is None:
-                raise Unsupported("round of a symbolic value")
+                if len(n.args) > 1:
+                    raise Unsupported("round of a symbolic value to a number of digits")
+                return self.fn("round", v_)      # nearest integer of a symbolic value: an opaque function of that value
             nd = self.concrete(A(1)) if len(n.args) > 1 else None
             r_ = round(c_, nd) if nd is not None else round(c_)
             return r_ if nd is None else Rat(Poly.const(Fraction(r_)))
@@ -1296,6 +1341,15 @@ class TenSym(PySym):
         if cn in ("itertools.product", "product"):
             import itertools as _it
             return list(_it.product(*[self.iterate(self.ex(a)) for a in n.args]))
+        if cn in ("np.diff",):
+            t = self.to_ten(A(0))
+            if self.concrete(self.kw(n, "n", 1, 1)) != 1:
+                raise Unsupported("np.diff with n != 1")
+            axis = self.concrete(self.kw(n, "axis", 2, -1)) % t.ndim
+            L_ = t.shape[axis]
+            hi = self.getitem(t, tuple([slice(None)] * axis + [slice(1, L_)]))
+            lo = self.getitem(t, tuple([slice(None)] * axis + [slice(0, L_ - 1)]))
+            return self.elementwise(lambda x, y: x - y, hi, lo)
         if cn in ("np.count_nonzero",):
             t = self.to_ten(A(0))
             nz = Ten(t.shape, [Rat(Poly.const(int(self.concrete(x) != 0))) for x in t.data])
@@ -1577,7 +1631,10 @@ class TenSym(PySym):
             except ShapeError:
                 raise
             except Unsupported:
-                t = self.assume(src(s.test)) if self.assume is not None else None
+                if self.assume is not None and getattr(self.assume, "wants_node", False):
+                    t = self.assume(self, s.test)       # a policy that looks at the operands by value
+                else:
+                    t = self.assume(src(s.test)) if self.assume is not None else None
                 validation = False
                 if t is None:
                     validation = all(isinstance(b, ast.Raise) or (isinstance(b, ast.Expr) and isinstance(b.value, ast.Call) and (call_name(b.value) or "").split(".")[-1] in ("warn",)) for b in s.body)
